@@ -166,7 +166,7 @@ pub fn parse_json(text: &str) -> String {
             feats.push(format!("E {id}"));
             continue;
         }
-        let fid = num_after(name, "f-").unwrap_or(usize::MAX);
+        let fid = num_after(f["uri"].as_str().unwrap_or(""), "twin").or_else(|| num_after(name, "f-")).unwrap_or(usize::MAX);
         let els: Vec<String> = f["elements"].as_array().map(Vec::as_slice).unwrap_or(&[]).iter().map(|el| {
             let en = el["name"].as_str().unwrap_or("");
             let rule = num_after(en, "r-");
@@ -350,6 +350,18 @@ pub fn gen_report(rng: &mut Rng, idx: usize) -> Case {
             alias.push((specs[j].id, specs[i].id));
         }
     }
+    // two features with the SAME NAME whose source paths differ — the second one's path ENDS WITH the first one's
+    // (`feat/f1.feature` and `twin7/feat/f1.feature`): identity of a feature is (path, name), not a suffix of it.
+    // Only the Cucumber JSON document states the path of every feature, so only it is compared in this mode.
+    let mut twin = false;
+    if idx > 1 && alias.is_empty() && specs.len() >= 2 && rng.chance(1, 6) {
+        let j = rng.range(1, specs.len() - 1);
+        if let (Some(p0), true) = (specs[0].path.clone(), specs[j].path.is_some()) {
+            specs[j].name = specs[0].name.clone();
+            specs[j].path = Some(format!("/twin{}{}", specs[j].id, p0));
+            twin = true;
+        }
+    }
     let cat = Rc::new(Cat::new(&specs));
     let cut = rng_cut(rng);
     // a third of the runs: the reporters sit behind `fail_on_skipped` (Failed(NotFound) steps)
@@ -426,6 +438,14 @@ pub fn gen_report(rng: &mut Rng, idx: usize) -> Case {
         "report.run {} {} {}",
         show_list(&nopath, |n| n.to_string()), show_list(&alias, |(a, b)| format!("{a} {b}")), show_list(&evs, show_aev),
     );
+    if twin {
+        imp = format!("JS {js_s}");
+        req = format!(
+            "report.json {} {} {}",
+            show_list(&nopath, |n| n.to_string()), show_list(&alias, |(a, b)| format!("{a} {b}")), show_list(&evs, show_aev),
+        );
+        return Case { req, imp, class: "twin-names".to_owned(), nontrivial: evs.len() > 6 };
+    }
     if !imp.contains('!') {
         req.push_str(&format!(
             "\nmon.c14 {} {} {lt_s} {} {js_s}",
